@@ -564,3 +564,44 @@ func IdentSchema(name, root string, p IdentProbe) *Schema {
 	s.Resources = append(s.Resources, &Resource{Namespace: resNS, Segments: []PathSeg{{Name: resName, KeyName: "key", Key: &keyType}}, Schema: &entity, Methods: ms})
 	return s
 }
+
+// ClashProbe builds a set in which records with the same simple name live in namespaces that share their last segments
+// and refer to each other in a cycle, so that the generator has to move them to one package and rename them apart.
+// variant 0: a.x.Foo <-> b.x.Foo; 1: x.Foo <-> a.x.Foo; 2: a.x.Foo -> b.x.Foo -> c.x.Foo -> a.x.Foo; 3: two clashing pairs
+// (Foo and Bar) over the same namespaces plus an innocent bystander with the same name.
+func ClashProbe(name, root string, variant int) *Schema {
+	s := &Schema{Name: name, PackageRoot: root}
+	str := P("string")
+	rec := func(ns, n string, peers ...string) {
+		fs := []Field{F("v", str)}
+		for i, p := range peers {
+			fs = append(fs, Opt(fmt.Sprintf("peer%d", i), R(p)))
+		}
+		s.Add(&TypeDef{Kind: "record", Name: n, Namespace: ns, Fields: fs})
+	}
+	a, b, c, x := name+".a.x", name+".b.x", name+".c.x", name+".x"
+	switch variant % 4 {
+	case 0:
+		rec(a, "Foo", b+".Foo")
+		rec(b, "Foo", a+".Foo")
+	case 1:
+		rec(x, "Foo", a+".Foo")
+		rec(a, "Foo", x+".Foo")
+	case 2:
+		rec(a, "Foo", b+".Foo")
+		rec(b, "Foo", c+".Foo")
+		rec(c, "Foo", a+".Foo")
+	case 3:
+		rec(a, "Foo", b+".Foo", b+".Bar")
+		rec(b, "Foo", a+".Foo")
+		rec(a, "Bar", b+".Bar")
+		rec(b, "Bar", a+".Bar", a+".Foo")
+		rec(c, "Foo")
+	}
+	holder := &TypeDef{Kind: "record", Name: "Holder", Namespace: name + ".h"}
+	for i, t := range s.Types {
+		holder.Fields = append(holder.Fields, Opt(fmt.Sprintf("f%d", i), R(t.FullName())))
+	}
+	s.Add(holder)
+	return s
+}
